@@ -3,6 +3,7 @@ package main
 import (
 	"fmt"
 	"os"
+	"strings"
 	"time"
 
 	. "verifharness/hlib"
@@ -21,6 +22,18 @@ var (
 	watchFirst = 30 * time.Second
 	watchLong  = 300 * time.Second
 )
+
+// C15_WATCHDOG="<first>,<long>" (Go durations) shortens the budgets — for the self-test of the watchdog on a mutant that
+// loops; never set by ./check
+func init() {
+	if p := strings.Split(os.Getenv("C15_WATCHDOG"), ","); len(p) == 2 {
+		a, e1 := time.ParseDuration(p[0])
+		b, e2 := time.ParseDuration(p[1])
+		if e1 == nil && e2 == nil {
+			watchFirst, watchLong = a, b
+		}
+	}
+}
 
 type hangT struct{ what string }
 
